@@ -134,6 +134,10 @@ def evaluate_dry(props, repo=None):
                     for p_ in again:
                         if p_ in res and not res[p_]:
                             out[p_] = []
+                        elif p_ in res and not any(_STRUCTURAL.search(v["reason"]) for v in res[p_]) and any(_STRUCTURAL.search(v["reason"]) for v in out[p_]):
+                            # both attempts fail, but on the normalised program every failure names a specific defect (no
+                            # unrecognised structure): that is the more useful report
+                            out[p_] = [dict(v, reason="[on the program with single-call-site helpers inlined] " + v["reason"]) for v in res[p_]]
     return out
 
 
@@ -246,8 +250,14 @@ def run_property(prop, rule_fn, tier="quick", seed=0, level_text="", replay=None
         if pr.returncode == 0:
             _sys.stdout.write(pr.stdout)
             return 0
-    if mode == "1" and violations:
-        return 1                # second attempt did not pass: the caller reports the failures of the program as written
+        if pr.returncode == 3 and any(_STRUCTURAL.search(f["reason"]) for i, f in violations):
+            # both attempts fail; on the normalised program every failure names a specific defect, here some name an
+            # unrecognised structure: the child's report (already written, with its evidence) is the more useful one
+            _sys.stdout.write(pr.stdout)
+            return 1
+    if mode == "1" and violations and any(_STRUCTURAL.search(f["reason"]) for i, f in violations):
+        return 1                # second attempt did not pass either: the caller reports the failures of the program as written
+    second_specific = (mode == "1" and bool(violations))
     os.makedirs(os.path.join(EVID, "violations"), exist_ok=True)
     # stale violation files of this property
     for fnm in os.listdir(os.path.join(EVID, "violations")):
@@ -313,4 +323,6 @@ def run_property(prop, rule_fn, tier="quick", seed=0, level_text="", replay=None
         json.dump(ev, fh, indent=1, default=str)
     print("%s: %d rule instances, %d pass, %d fail (%d known), %d sites, %.1fs" % (
         prop, n_inst, discharged, n_inst - discharged, len(known_hits), sum(len(i.sites) for i in ctx.instances), time.time() - t0))
+    if violations and second_specific:
+        return 3
     return 1 if violations else 0
